@@ -65,7 +65,63 @@ fn one_step(method: &str, x0: f64, h: f64) -> Option<(f64, Vec<f64>)> {
     Some((err, derr))
 }
 
+/// y' = k t^(k-1), y(t0) = t0^k : a method of order p integrates it exactly for k ≤ p, an interpolant of order q
+/// reproduces t^k for k ≤ q (consequence of the bushy-tree order conditions; crisp, rounding-level oracle).
+struct Monomial(i32);
+impl IVP for Monomial {
+    fn ode(&self, t: f64, _y: &[f64], d: &mut [f64]) {
+        d[0] = self.0 as f64 * t.powi(self.0 - 1);
+    }
+}
+
+fn poly_probe() {
+    let table: [(&str, i32, i32); 5] = [("RK4", 4, 3), ("RK23", 3, 3), ("DOPRI5", 5, 4), ("DOP853", 8, 7), ("RADAU", 5, 3)];
+    let thetas = [0.1, 0.2, 0.3, 0.4, 0.5, 0.6, 0.7, 0.8, 0.9];
+    for (m, p, q) in table {
+        for k in 1..=p {
+            for (x0, h) in [(0.5, 0.4), (1.0, -0.3)] {
+                let f = Monomial(k);
+                let y0 = [f64::powi(x0, k)];
+                let xend = x0 + h;
+                let mut rec = Recorder::new();
+                rec.thetas = thetas.to_vec();
+                let big = 1e30;
+                let res = match m {
+                    "RK4" => RK4::builder().build().solve(&f, x0, &y0, xend, h, Some(&mut rec)),
+                    "RK23" => RK23::builder().first_step(h).build().solve(&f, x0, &y0, xend, big.into(), big.into(), Some(&mut rec)),
+                    "DOPRI5" => DOPRI5::builder().first_step(h).build().solve(&f, x0, &y0, xend, big.into(), big.into(), Some(&mut rec)),
+                    "DOP853" => DOP853::builder().first_step(h).build().solve(&f, x0, &y0, xend, big.into(), big.into(), Some(&mut rec)),
+                    _ => RADAU::builder().first_step(h).newton_tol(1e-13).newton_maxiter(60).mass_storage(MatrixStorage::Identity).build().solve(
+                        &f, x0, &y0, xend, 1e2.into(), 1e2.into(), Some(&mut rec)),
+                };
+                if res.is_err() || rec.cbs.len() != 2 {
+                    println!("{{\"kind\":\"poly\",\"method\":\"{}\",\"k\":{},\"x0\":{},\"h\":{},\"skipped\":true}}", m, k, x0, h);
+                    continue;
+                }
+                let cb = &rec.cbs[1];
+                let scale = f64::powi(x0.abs().max(xend.abs()), k).max(1.0);
+                let step_err = (cb.y[0] - f64::powi(cb.x, k)).abs() / scale;
+                let mut dense_err: f64 = 0.0;
+                let mut worst_theta = 0.0;
+                if k <= q {
+                    for (j, th) in thetas.iter().enumerate() {
+                        let t = cb.xold + th * (cb.x - cb.xold);
+                        let e = (cb.samples[j][0] - f64::powi(t, k)).abs() / scale;
+                        if e > dense_err { dense_err = e; worst_theta = *th; }
+                    }
+                }
+                let ok = step_err <= 1e-11 && dense_err <= 1e-11;
+                println!(
+                    "{{\"kind\":\"poly\",\"method\":\"{}\",\"k\":{},\"x0\":{},\"h\":{},\"step_err\":{},\"dense_checked\":{},\"dense_err\":{},\"worst_theta\":{},\"ok\":{}}}",
+                    m, k, x0, h, jnum(step_err), k <= q, jnum(dense_err), worst_theta, ok
+                );
+            }
+        }
+    }
+}
+
 pub fn run(_args: &[String]) {
+    poly_probe();
     // (method, advertised step order p, interpolant order q, base step)
     let table: [(&str, f64, f64, f64); 5] =
         [("RK4", 4.0, 3.0, 0.1), ("RK23", 3.0, 3.0, 0.1), ("DOPRI5", 5.0, 4.0, 0.2), ("DOP853", 8.0, 7.0, 0.4), ("RADAU", 5.0, 3.0, 0.1)];
